@@ -338,6 +338,8 @@ CPPPreprocessor() {
   _unget = '\0';
   _last_c = '\0';
   _start_of_line = true;
+  _was_start_of_line = true;
+  _comment_is_trailing = false;
   _last_cpp_comment = false;
   _save_comments = true;
 
@@ -867,7 +869,15 @@ get_comment_before(int line, CPPFile file) {
     CPPCommentBlock *comment = (*ci);
     if (comment->_file == file) {
       wrong_file_count = 0;
-      if (comment->_last_line == line || comment->_last_line == line - 1) {
+      if (comment->_last_line == line) {
+        return comment;
+      }
+      if (comment->_last_line == line - 1) {
+        // A comment that trails other text on the previous line documents that
+        // text, not whatever begins on this line.
+        if (comment->_trailing) {
+          return nullptr;
+        }
         return comment;
       }
 
@@ -1454,6 +1464,8 @@ int CPPPreprocessor::
 skip_comment(int c) {
   while (c == '/') {
     int next_c = peek();
+    // Does this comment, if it is one, follow other text on its line?
+    _comment_is_trailing = !_was_start_of_line;
     if (next_c == '*') {
       get();
       _last_cpp_comment = false;
@@ -1494,6 +1506,7 @@ skip_c_comment(int c) {
     comment->_last_line = loc.last_line;
     comment->_col_number = loc.first_column;
     comment->_c_style = true;
+    comment->_trailing = _comment_is_trailing;
     comment->_comment = "/*";
 
     while (c != EOF) {
@@ -1554,11 +1567,13 @@ skip_cpp_comment(int c) {
     }
 
     if (_last_cpp_comment && !_comments.empty() &&
-        _comments.back()->_last_line >= line_number - 1) {
+        _comments.back()->_last_line >= line_number - 1 &&
+        (_comment_is_trailing || !_comments.back()->_trailing)) {
       // If the last non-whitespace character read was also part of a C++
       // comment, then this is just a continuation of that comment block.
       // However, if there was a line without comment in between, it starts a
-      // new block anyway.
+      // new block anyway; and so does a comment on a line of its own that
+      // follows a comment trailing the code of the previous line.
       comment = _comments.back();
       assert(!comment->_c_style);
       comment->_comment += "//";
@@ -1572,6 +1587,7 @@ skip_cpp_comment(int c) {
       comment->_last_line = line_number;
       comment->_col_number = get_col_number() - 2;
       comment->_c_style = false;
+      comment->_trailing = _comment_is_trailing;
       comment->_comment = "//";
 
       _comments.push_back(comment);
@@ -3140,6 +3156,7 @@ get() {
     c = '\n';
   }
 
+  _was_start_of_line = _start_of_line;
   if (c == '\n') {
     _start_of_line = true;
   } else if (!isspace(c) && c != '#') {
